@@ -18,9 +18,11 @@ import (
 	"reflect"
 	"sort"
 	"strings"
+	"sync/atomic"
 	"time"
 	"unsafe"
 
+	"github.com/dolthub/dolt/go/gen/fb/serial"
 	"github.com/dolthub/dolt/go/libraries/doltcore/doltdb"
 	"github.com/dolthub/dolt/go/libraries/doltcore/merge"
 	"github.com/dolthub/dolt/go/libraries/doltcore/ref"
@@ -28,6 +30,7 @@ import (
 	"github.com/dolthub/dolt/go/store/datas"
 	"github.com/dolthub/dolt/go/store/hash"
 	"github.com/dolthub/dolt/go/store/prolly"
+	"github.com/dolthub/dolt/go/store/prolly/message"
 	"github.com/dolthub/dolt/go/store/prolly/tree"
 	"github.com/dolthub/dolt/go/store/types"
 	"github.com/dolthub/dolt/go/zz_verif/common"
@@ -57,6 +60,7 @@ type world struct {
 	srv     *sqlh.Server
 	sess    *sqlh.Session
 	dir     string
+	fault   *faultStore
 }
 
 func (w *world) initRoot() {
@@ -68,12 +72,39 @@ func (w *world) initRoot() {
 	w.valHash = h
 }
 
+// faultStore fails reads of one chosen chunk while armed (a transient I/O error / dropped remote connection).
+type faultStore struct {
+	chunks.ChunkStore
+	bad   hash.Hash
+	armed atomic.Bool
+	hits  atomic.Int32
+}
+
+var errInjected = errors.New("verif: injected read fault")
+
+func (f *faultStore) Get(ctx context.Context, h hash.Hash) (chunks.Chunk, error) {
+	if f.armed.Load() && h == f.bad {
+		f.hits.Add(1)
+		return chunks.EmptyChunk, errInjected
+	}
+	return f.ChunkStore.Get(ctx, h)
+}
+
+func (f *faultStore) GetMany(ctx context.Context, hashes hash.HashSet, found func(context.Context, *chunks.Chunk)) error {
+	if f.armed.Load() && hashes.Has(f.bad) {
+		f.hits.Add(1)
+		return errInjected
+	}
+	return f.ChunkStore.GetMany(ctx, hashes, found)
+}
+
 func newMemWorld() *world {
 	st := &chunks.MemoryStorage{}
-	cs := st.NewViewWithFormat(types.Format_DOLT.VersionString())
+	fs := &faultStore{ChunkStore: st.NewViewWithFormat(types.Format_DOLT.VersionString())}
+	var cs chunks.ChunkStore = fs
 	ddb, err := doltdb.DoltDBFromCS(cs, "verif")
 	must(err)
-	w := &world{storage: st, ddb: ddb, db: doltdb.ExposeDatabaseFromDoltDB(ddb), vrw: ddb.ValueReadWriter(), ns: ddb.NodeStore()}
+	w := &world{storage: st, fault: fs, ddb: ddb, db: doltdb.ExposeDatabaseFromDoltDB(ddb), vrw: ddb.ValueReadWriter(), ns: ddb.NodeStore()}
 	w.initRoot()
 	return w
 }
@@ -172,6 +203,8 @@ type binding struct {
 	tag     string
 	onlyC18 bool
 	onlyC19 bool
+	amp     int  // amplification: every model edge is realised as a chain of amp filler commits
+	fault   bool // amplified: fail the read of one closure chunk of the second parent while a merge commit is written
 }
 
 type nameBinding struct {
@@ -196,6 +229,12 @@ func decodeBinding(c map[string]any) binding {
 	}
 	if v, ok := bm["gc"].(bool); ok {
 		b.gc = v
+	}
+	if v, ok := bm["amp"]; ok {
+		b.amp = common.Int(v)
+	}
+	if v, ok := bm["fault"].(bool); ok {
+		b.fault = v
 	}
 	if v, ok := bm["names"].([]any); ok {
 		for k, x := range v {
@@ -233,6 +272,12 @@ type built struct {
 	cm    []*doltdb.Commit  // 1-based
 	id    map[hash.Hash]int // address -> model commit
 	evals int
+	// amplified binding (DESIGN 3.1): chain[child,parent] = filler commits between the real parent and the real child
+	chains map[[2]int][]ckey
+	tips   map[int][]hash.Hash
+	// fault injection bookkeeping
+	faultTried, faultHit, faultCommitFailed int
+	afterFault                              bool
 }
 
 func meta(tag string, i int, seed int) *datas.CommitMeta {
@@ -881,6 +926,300 @@ func (bt *built) checkWalks(routes []string, c int, base string, cwb ref.DoltRef
 	return nil
 }
 
+// ------------------------------------------------------------------------------------------------ amplified binding
+// Every model edge (child -> parent) is realised as a chain of K filler commits, so that a model commit of height h is a real
+// commit of height 1+(h-1)(K+1): heights cross byte boundaries of the closure key and closures grow to multi-level prolly
+// trees. Expectations map mechanically: closure(real c) = images of the model closure of c plus the fillers of every edge that
+// leaves c or one of its model ancestors; the merge base of two model commits is the image of the model merge base (real
+// heights are a monotone function of model heights and every filler lies below the model commit whose edge it is on).
+
+func (bt *built) ampHeight(c int) uint64 {
+	return uint64(1 + (bt.g.ht[c-1]-1)*(bt.b.amp+1))
+}
+
+func (bt *built) buildAllAmp() common.Result {
+	w, g, K := bt.w, bt.g, bt.b.amp
+	bt.chains = map[[2]int][]ckey{}
+	bt.tips = map[int][]hash.Hash{}
+	for i := 1; i <= g.n; i++ {
+		var tips []hash.Hash
+		for _, p := range g.par[i-1] {
+			key := [2]int{i, p}
+			ch, done := bt.chains[key]
+			if !done {
+				prev := bt.cm[p]
+				for j := 1; j <= K; j++ {
+					id := datas.CommitIdent{Name: "verif", Email: "verif@example.com", Date: datas.CommitDateAt(time.Unix(1700000000+int64(j), 0))}
+					m, err := datas.NewCommitMetaWithAuthorCommitter(id, id, fmt.Sprintf("filler %s edge %d-%d #%d seed %d", bt.b.tag, i, p, j, bt.b.seed))
+					must(err)
+					cm, err := w.ddb.CommitDanglingWithParentCommits(ctx, w.valHash, []*doltdb.Commit{prev}, m)
+					if err != nil {
+						return common.Fail(i, "AddCommit", "filler commit creation failed", "ok", err.Error())
+					}
+					h, _ := cm.HashOf()
+					fh, _ := cm.Height()
+					want := bt.ampHeight(p) + uint64(j)
+					if fh != want {
+						return common.Fail(i, "Meta(amplified)", fmt.Sprintf("height of filler %d on edge c%d->c%d", j, i, p), want, fh)
+					}
+					ch = append(ch, ckey{want, h})
+					prev = cm
+				}
+				bt.chains[key] = ch
+			}
+			if len(ch) > 0 {
+				tips = append(tips, ch[len(ch)-1].addr)
+			} else {
+				tips = append(tips, bt.addr[p])
+			}
+		}
+		bt.tips[i] = tips
+		ds, err := w.db.GetDataset(ctx, internalRef(bt.b.tag, i).String())
+		must(err)
+		bt.afterFault = false
+		armed := false
+		if bt.b.fault && !bt.b.onlyC19 && w.fault != nil && len(tips) >= 2 && tips[0] != tips[1] {
+			armed = bt.armFault(tips[1])
+		}
+		ds, err = w.db.Commit(ctx, ds, w.val, datas.CommitOptions{Parents: tips, Meta: meta(bt.b.tag, i, bt.b.seed)})
+		if armed {
+			// fault action: the commit must fail cleanly (no head recorded; the retry is exact) or be exact - never succeed
+			// with a truncated closure
+			w.fault.armed.Store(false)
+			bt.faultTried++
+			if w.fault.hits.Load() > 0 {
+				bt.faultHit++
+				bt.afterFault = true
+			}
+			if err != nil {
+				bt.faultCommitFailed++
+				ds2, e2 := w.db.GetDataset(ctx, internalRef(bt.b.tag, i).String())
+				must(e2)
+				if _, has := ds2.MaybeHeadAddr(); has {
+					return common.Fail(i, "AddCommit(read-fault)", "failed commit left a dataset head behind", "no head", "head")
+				}
+				w.ddb.PurgeCaches()
+				ds, err = w.db.Commit(ctx, ds2, w.val, datas.CommitOptions{Parents: tips, Meta: meta(bt.b.tag, i, bt.b.seed)})
+			}
+			w.ddb.PurgeCaches()
+		}
+		if err != nil {
+			return common.Fail(i, "AddCommit", "commit creation failed", g.par[i-1], err.Error())
+		}
+		a, _ := ds.MaybeHeadAddr()
+		if err := bt.register(i, a); err != nil {
+			return common.Fail(i, "AddCommit", "register", "ok", err.Error())
+		}
+		if !bt.b.onlyC19 {
+			if r := bt.checkMetaAmp(i, "fresh"); r != nil {
+				return r
+			}
+		}
+	}
+	return nil
+}
+
+// armFault: flush, pick a chunk in the middle of the closure tree of |tip| (only if that tree has >= 2 levels), drop all caches
+// and arm the fault store for it.
+func (bt *built) armFault(tip hash.Hash) bool {
+	w := bt.w
+	must(w.ddb.SetHead(ctx, ref.NewInternalRef("verif/"+bt.b.tag+"/flush"), tip))
+	dc, err := datas.LoadCommitAddr(ctx, w.vrw, tip)
+	must(err)
+	cl, err := datas.NewParentsClosure(ctx, dc, dc.NomsValue().(types.SerialMessage), w.vrw, w.ns)
+	must(err)
+	if cl.IsEmpty() || cl.Height() < 2 {
+		return false
+	}
+	var children []hash.Hash
+	rootMsg := serial.Message(tree.ValueFromNode(cl.Node()).(types.SerialMessage))
+	must(message.WalkAddresses(ctx, rootMsg, func(_ context.Context, a hash.Hash) error {
+		children = append(children, a)
+		return nil
+	}))
+	if len(children) < 2 {
+		return false
+	}
+	w.fault.bad = children[len(children)/2]
+	w.fault.hits.Store(0)
+	w.ddb.PurgeCaches()
+	w.fault.armed.Store(true)
+	return true
+}
+
+// expectedClosureAmp: images of the model closure of c + the fillers of every edge leaving c or a model ancestor of c
+func (bt *built) expectedClosureAmp(c int) []ckey {
+	var out []ckey
+	nodes := []int{c}
+	for _, k := range bt.g.clo[c-1] {
+		out = append(out, ckey{bt.ampHeight(k[1]), bt.addr[k[1]]})
+		nodes = append(nodes, k[1])
+	}
+	for _, y := range nodes {
+		seen := map[int]bool{}
+		for _, p := range bt.g.par[y-1] {
+			if !seen[p] {
+				seen[p] = true
+				out = append(out, bt.chains[[2]int{y, p}]...)
+			}
+		}
+	}
+	sort.Slice(out, func(i, j int) bool { return lessKey(out[j], out[i]) })
+	return out
+}
+
+var ampTreeHeights = map[int]int{}
+
+func (bt *built) checkMetaAmp(c int, via string) common.Result {
+	w := bt.w
+	act := "Meta(amplified," + via + ")"
+	if bt.afterFault && via == "fresh" {
+		act = "Meta(amplified,after-read-fault)"
+	}
+	dc, err := datas.LoadCommitAddr(ctx, w.vrw, bt.addr[c])
+	if err != nil {
+		return common.Fail(c, act, "commit unreadable", "ok", err.Error())
+	}
+	rh, _ := dc.NomsValue().Hash(w.vrw.Format())
+	if rh != bt.addr[c] || dc.Addr() != bt.addr[c] {
+		return common.Fail(c, act, "address changed", bt.addr[c].String(), rh.String())
+	}
+	if dc.Height() != bt.ampHeight(c) {
+		return common.Fail(c, act, "datas.Commit.Height", bt.ampHeight(c), dc.Height())
+	}
+	ps, err := datas.GetCommitParents(ctx, w.vrw, dc.NomsValue())
+	must(err)
+	if len(ps) != len(bt.tips[c]) {
+		return common.Fail(c, act, "parent list", len(bt.tips[c]), len(ps))
+	}
+	for i := range ps {
+		if ps[i].Addr() != bt.tips[c][i] {
+			return common.Fail(c, act, "parent list", bt.tips[c][i].String(), ps[i].Addr().String())
+		}
+	}
+	cl, err := datas.NewParentsClosure(ctx, dc, dc.NomsValue().(types.SerialMessage), w.vrw, w.ns)
+	if err != nil {
+		return common.Fail(c, act, "NewParentsClosure error", "ok", err.Error())
+	}
+	got, err := readClosure(cl)
+	if err != nil {
+		return common.Fail(c, act, "closure iteration error", "ok", err.Error())
+	}
+	want := bt.expectedClosureAmp(c)
+	if !keysEq(got, want) {
+		// describe the first difference compactly
+		miss, extra := 0, 0
+		ws, gs := map[ckey]bool{}, map[ckey]bool{}
+		for _, k := range want {
+			ws[k] = true
+		}
+		for _, k := range got {
+			gs[k] = true
+			if !ws[k] {
+				extra++
+			}
+		}
+		for _, k := range want {
+			if !gs[k] {
+				miss++
+			}
+		}
+		return common.Fail(c, act, "closure contents", fmt.Sprintf("%d entries", len(want)),
+			fmt.Sprintf("%d entries, %d missing, %d unexpected, order ok=%v", len(got), miss, extra, miss == 0 && extra == 0))
+	}
+	if !cl.IsEmpty() {
+		cnt, _ := cl.Count()
+		if cnt != len(want) {
+			return common.Fail(c, act, "closure Count", len(want), cnt)
+		}
+		ampTreeHeights[cl.Height()]++
+	}
+	bt.evals += 4 + len(want)
+	return nil
+}
+
+// checkHCAFillers: merge base of a model commit c and a filler f on the edge y->p (the chain tip and a filler in the middle).
+// If y is c or an ancestor of c (model table: HCA(y,c) = {y}) then f is an ancestor of c and the merge base is f itself;
+// otherwise the common ancestors of c and f are those of c and p, so the merge base is the image of the model HCA(c,p).
+func (bt *built) checkHCAFillers() common.Result {
+	g, w := bt.g, bt.w
+	for key, ch := range bt.chains {
+		if len(ch) == 0 {
+			continue
+		}
+		y, p := key[0], key[1]
+		for _, fi := range []int{len(ch) - 1, len(ch) / 2} {
+			f := ch[fi]
+			fdc, err := datas.LoadCommitAddr(ctx, w.vrw, f.addr)
+			must(err)
+			for c := 1; c <= g.n; c++ {
+				isAnc := len(g.hca[y-1][c-1]) == 1 && g.hca[y-1][c-1][0] == y
+				for dir := 0; dir < 2; dir++ {
+					var h hash.Hash
+					var ok bool
+					if dir == 0 {
+						h, ok, err = datas.FindCommonAncestor(ctx, bt.dc[c], fdc, w.vrw, w.vrw, w.ns, w.ns)
+					} else {
+						h, ok, err = datas.FindCommonAncestor(ctx, fdc, bt.dc[c], w.vrw, w.vrw, w.ns, w.ns)
+					}
+					act := "MergeBase(datas.FindCommonAncestor,amplified)"
+					what := fmt.Sprintf("merge base of c%d and filler %d/%d of edge c%d->c%d (argument order %d)", c, fi+1, len(ch), y, p, dir)
+					if err != nil {
+						return common.Fail(c, act, what, "ok", err.Error())
+					}
+					bt.evals++
+					if isAnc {
+						if !ok || h != f.addr {
+							return common.Fail(c, act, what, "the filler itself (it is an ancestor)", fmt.Sprint(ok, " ", bt.name(h)))
+						}
+						continue
+					}
+					want := g.hca[c-1][p-1]
+					if len(want) == 0 {
+						if ok {
+							return common.Fail(c, act, what, "none", bt.name(h))
+						}
+						continue
+					}
+					if x, known := bt.id[h]; !ok || !known || !inSet(want, x) {
+						return common.Fail(c, act, what, want, fmt.Sprint(ok, " ", bt.name(h)))
+					}
+				}
+			}
+		}
+	}
+	return nil
+}
+
+// checkWalksAmp: ^ / ^2 / ~ from a model commit land on the tip of the edge chain; followed by ~K they land on the model parent
+func (bt *built) checkWalksAmp() common.Result {
+	g := bt.g
+	for c := 1; c <= g.n; c++ {
+		for si, spec := range g.specs {
+			if spec != "^" && spec != "^1" && spec != "^2" && spec != "~" && spec != "~1" && spec != "^3" && spec != "^0" {
+				continue
+			}
+			want := g.walk[c-1][si]
+			full := spec
+			if want > 0 && bt.b.amp > 0 {
+				full = fmt.Sprintf("%s~%d", spec, bt.b.amp)
+			}
+			for _, r := range []string{"GetAncestor", "Resolve"} {
+				h, e := bt.resolveVia(r, c, bt.addr[c].String(), full, nil)
+				bt.evals++
+				if want > 0 {
+					if e != "" || h != bt.addr[want] {
+						return common.Fail(c*1000+si, "AncestorSpec("+r+",amplified)", fmt.Sprintf("<hash>%s from c%d", full, c), want, fmt.Sprint(e, bt.name(h)))
+					}
+				} else if e == "" {
+					return common.Fail(c*1000+si, "AncestorSpec("+r+",amplified)", fmt.Sprintf("<hash>%s from c%d must fail", full, c), "error", bt.name(h))
+				}
+			}
+		}
+	}
+	return nil
+}
+
 // ------------------------------------------------------------------------------------------------ dag mode
 
 func (bt *built) buildAll() common.Result {
@@ -931,6 +1270,9 @@ func runDag(c map[string]any) common.Result {
 		b.tag = fmt.Sprintf("m%d", b.seed)
 	}
 	bt := newBuilt(w, g, b)
+	if b.amp > 0 {
+		return runDagAmp(bt)
+	}
 	if r := bt.buildAll(); r != nil {
 		return r
 	}
@@ -1045,6 +1387,64 @@ func runDag(c map[string]any) common.Result {
 	return common.Result{"ok": true, "evals": bt.evals, "merges": merges, "dups": dups, "roots": roots, "maxht": maxht,
 		"multi": st.multi, "unrelated": st.unrelated, "tiesClosureMax": st.tiesClosureMax, "tiesClosureOther": st.tiesClosureOther,
 		"routeDisagree": st.routeDisagree, "notes": notes, "store": b.store, "gc": b.gc}
+}
+
+func runDagAmp(bt *built) common.Result {
+	g, b, w := bt.g, bt.b, bt.w
+	ampTreeHeights = map[int]int{}
+	if r := bt.buildAllAmp(); r != nil {
+		return r
+	}
+	var notes []string
+	st := &hcaStats{}
+	if !b.onlyC19 {
+		must(w.ddb.SetHead(ctx, ref.NewInternalRef("verif/"+b.tag+"/keep"), bt.addr[g.n]))
+		w.ddb.PurgeCaches()
+		for i := 1; i <= g.n; i++ {
+			if r := bt.checkMetaAmp(i, "reread"); r != nil {
+				return r
+			}
+		}
+	}
+	if b.onlyC19 {
+		for i := 1; i <= g.n; i++ {
+			if cl, err := datas.NewParentsClosure(ctx, bt.dc[i], bt.dc[i].NomsValue().(types.SerialMessage), w.vrw, w.ns); err == nil && !cl.IsEmpty() {
+				ampTreeHeights[cl.Height()]++
+			}
+		}
+	}
+	if !b.onlyC18 && g.hca != nil {
+		if r := bt.checkHCA(st); r != nil {
+			return r
+		}
+		if r := bt.checkHCAFillers(); r != nil {
+			return r
+		}
+		if r := bt.checkFF(&notes); r != nil {
+			return r
+		}
+		if g.specs != nil {
+			if r := bt.checkWalksAmp(); r != nil {
+				return r
+			}
+		}
+	}
+	merges, dups, roots := graphStats(g)
+	maxht := 0
+	for _, h := range g.ht {
+		if h > maxht {
+			maxht = h
+		}
+	}
+	th := map[string]int{}
+	for k, v := range ampTreeHeights {
+		th[fmt.Sprint(k)] = v
+	}
+	return common.Result{"ok": true, "evals": bt.evals, "merges": merges, "dups": dups, "roots": roots, "maxht": maxht, "amp": b.amp,
+		"realMaxHeight": 1 + (maxht-1)*(b.amp+1), "closureTreeHeights": th,
+		"faultTried": bt.faultTried, "faultHit": bt.faultHit, "faultCommitFailed": bt.faultCommitFailed,
+		"multi": st.multi, "unrelated": st.unrelated, "tiesClosureMax": st.tiesClosureMax, "tiesClosureOther": st.tiesClosureOther,
+		"routeDisagree": st.routeDisagree, "notes": notes, "store": b.store}
 }
 
 // gcAndReread: run dolt_gc() through SQL, reopen a session, and check that every commit written since the last GC is
